@@ -128,7 +128,10 @@ class SymDict(Spec):
         arr = ctx.fresh(name + '_map', z3.ArraySort(z3.StringSort(), Val))
         dom = ctx.fresh(name + '_dom', z3.ArraySort(z3.StringSort(),
                                                     z3.BoolSort()))
-        return ctx.alloc(DictCell({}, (arr, dom)))
+        cell = DictCell({}, (arr, dom))
+        # abstract emptiness of an arbitrary mapping
+        cell.nonempty = ctx.fresh_bool(name + '_nonempty')
+        return ctx.alloc(cell)
 
 
 class Record(Spec):
@@ -496,6 +499,12 @@ class Engine(object):
                         ctx.old_vals = olds
                         ctx.assume(self.eval_clause(it, clause, env))
                     raise PyRaise(ex)
+            # exceptions declared `raises_iff`: when the callee did not
+            # raise, its raising condition did not hold
+            for exc in getattr(c, 'raises_iff', ()):
+                clause = c.raises.get(exc)
+                if clause is not None:
+                    ctx.assume(z3.Not(self.eval_clause(it, clause, {})))
             self.havoc_modifies(it, c)
             if c.call_effect:
                 res = c.call_effect(it, bound)
